@@ -144,7 +144,22 @@ func compareWithModel(r *hx.Run, tag string, client protocol.Client, pool *fx.Po
 		return
 	}
 	done := r.Watch(caseID)
-	rm, err := ResolveImpl(client, pool.Suffix, placed)
+	var rm *protocol.ResolutionModel
+	var err error
+	if len(caseID)%3 == 0 {
+		// a third of the states: the same processor instance resolves twice; both answers and the first answer re-read after
+		// the second resolution must be the same
+		var rm2 *protocol.ResolutionModel
+		var err2 error
+		rm, err, rm2, err2 = ResolveImplTwice(client, pool.Suffix, placed)
+		first := ProjectImpl(rm, err)
+		if second := ProjectImpl(rm2, err2); second != first {
+			r.Violation("repeated-resolution-differs:"+diffFields(second, first), caseID+"|twice", fmt.Sprintf("history %v resolved twice by one processor\n  first : %s\n  second: %s", placedDesc(placed), first, second), nil)
+		}
+		r.Eval()
+	} else {
+		rm, err = ResolveImpl(client, pool.Suffix, placed)
+	}
 	done()
 	impl := ProjectImpl(rm, err)
 	st, merr := ResolveModel(placed, nil, maxDelta)
@@ -172,7 +187,7 @@ func c03(r *hx.Run) {
 	fx.Quiet()
 	client, v := stdClient()
 	delta := v.P.MaxOperationTimeDelta
-	r.Rule = "explicit-state search: states are sets of (pool operation, anchoring coordinate[, published]) placements; every state is resolved by the real processor/applier/parser/composer and by ref/sidetree and all result fields compared. A state is non-trivial when the reference applies at least one operation after the create."
+	r.Rule = "explicit-state search: states are sets of (pool operation, anchoring coordinate[, published]) placements; every state is resolved by the real processor/applier/parser/composer and by ref/sidetree and all result fields compared; a third of the states is resolved twice by one processor instance (identical answers required). A state is non-trivial when the reference applies at least one operation after the create."
 	grid4 := []Coord{{1, 0}, {1, 1}, {2, 0}, {2, 1}}
 	grid5 := []Coord{{1, 0}, {1, 2}, {2, 0}, {2, 1}, {3, 0}}
 	pool := fx.NewPool(fx.Ed25519, fx.SHA256, "ok")
